@@ -295,9 +295,6 @@ fn check_fq12(s: &mut Src, info: &mut Info, key: &mut Key, ctx: &Ctx) -> Result<
         }
         3 | 4 => {
             eq12!(ta.mul(&tb), a.mul(&b), "fq12-mul|value", "Fq12 mul [{}]*[{}]", show12(&a), show12(&b));
-            // the public Gt multiplication is the same routine
-            let g = ta.into_gt() * tb.into_gt();
-            ensure!(g.to_slice()[..] == a.mul(&b).to_sm9_bytes()[..], "gt-mul|value", "Gt mul on arbitrary elements differs from the reference");
         }
         5 | 6 => {
             // mul_015: right operand with c1 = 0 and c2 = (0, *): support w^0,w^3,w^6,w^9 (c0) and w^5,w^11 (c2.c1)
@@ -323,8 +320,6 @@ fn check_fq12(s: &mut Src, info: &mut Info, key: &mut Key, ctx: &Ctx) -> Result<
             (None, None) => {}
             (Some(i), Some(w)) => {
                 eq12!(i, w, "fq12-inverse|value", "Fq12 inverse [{}]", show12(&a));
-                let gi = ta.into_gt().inverse();
-                ensure!(gi.map(|g| g.to_slice().to_vec()) == Some(w.to_sm9_bytes().to_vec()), "gt-inverse|value", "Gt inverse on an arbitrary element differs");
             }
             (None, Some(_)) => fail!("fq12-inverse|none-for-nonzero", "Fq12 inverse([{}]) = None", show12(&a)),
             (Some(i), None) => fail!("fq12-inverse|some-for-zero", "Fq12 inverse(0) = Some([{}])", show12(&p12_of(&i))),
@@ -421,7 +416,9 @@ fn check_pow(s: &mut Src, info: &mut Info, key: &mut Key, ctx: &Ctx) -> Result<(
     let k = scalar(s).k;
     let want = a.pow(&k);
     eq12!(ta.pow_fr(crate::gen::fr_of(&k)), want, "fq12-pow_fr|value", "Fq12 pow_fr([{}], {:x})", show12(&a), k);
-    ensure!(ta.into_gt().pow(crate::gen::fr_of(&k)).to_slice()[..] == want.to_sm9_bytes()[..], "gt-pow|value", "Gt pow on an arbitrary element differs");
+    // NOTE: the public Gt wrapper (Gt::mul / inverse / pow) is deliberately NOT compared on arbitrary elements: Gt only ever
+    // holds pairing values (unitary, cyclotomic), so a wrapper that uses the conjugate as inverse or cyclotomic squarings
+    // is correct for everything the API can produce. Gt on pairing values is C11's subject.
     Ok(())
 }
 
